@@ -82,9 +82,10 @@ void mixhash(int a,int b){
   unsigned char buf[8]; memcpy(buf,&a,4); memcpy(buf+4,&b,4);
   for(int i=0;i<8;i++){ S.hash^=buf[i]; S.hash*=1099511628211ULL; }
 }
+// fixed buffer: the scheduler must not call the (intercepted) allocator from simulated threads
+int dec_buf[1<<17];
 void record(int v){
-  if(S.ndec==S.capdec){ S.capdec=S.capdec?S.capdec*2:256; S.dec=(int*)realloc(S.dec,sizeof(int)*S.capdec); }
-  S.dec[S.ndec++]=v;
+  if(S.ndec<(int)(sizeof dec_buf/sizeof dec_buf[0])) dec_buf[S.ndec++]=v;
 }
 
 int lowest_runnable(){
@@ -218,7 +219,7 @@ SchedResult sched_end(){
   SchedResult r;
   r.steps=S.steps; r.decisions=S.decisions; r.switches=S.switches; r.preempt_in_op=S.preempt_in_op;
   r.hash=S.hash; r.deadlock=S.deadlock; r.overflow=S.overflow;
-  free(S.dec); S.dec=0; S.ndec=S.capdec=0;
+  S.dec=0; S.ndec=S.capdec=0;
   S.active=0; S.nthreads=0;
   return r;
 }
@@ -228,7 +229,7 @@ int sched_aborted(){ return S.abort_all; }
 int sched_self(){ return S.active?g_tid:-1; }
 long sched_step(){ return S.steps; }
 int sched_ndecisions(){ return S.ndec; }
-const int* sched_decisions(){ return S.dec; }
+const int* sched_decisions(){ return dec_buf; }
 
 void sched_set_in_op(int flag){
   int tid=g_tid; if(!S.active||tid<0) return;
